@@ -5,8 +5,12 @@
 Fragment (anything else raises TranslateError => "tie broken"):
   * a function body is `return e` or `x = e; return x` (after the docstring)
   * e ::= parameter | local | numeric literal 10 / 10.0 / 1000 / 1000. |
-          e + e | e - e | e * e | e / e | pow(10, e) | np.log10(e) |
+          e + e | e - e | e * e | e / e | pow(10, e) | np.log10(e) | _log10(e) |
           call of an already translated sibling
+  * `_log10(value)` must be exactly `return np.log10(np.asarray(value) + 0.0)`:
+    the promotion idiom `np.asarray(v) + 0.0` is the identity on real values
+    (it only selects the floating point type), so `_log10 e` is emitted as
+    `Transc.log10 e`
 `PyPhysim.Properties.C20.generated_conversions_normal_form` proves (by `rfl`)
 that the emitted definitions are the model functions the conversion theorems
 are about, so a source edit re-opens the proof obligation.
@@ -43,6 +47,8 @@ def expr(e, names, known):
         if (isinstance(f, ast.Attribute) and f.attr == 'log10' and isinstance(f.value, ast.Name)
                 and f.value.id == 'np' and len(e.args) == 1):
             return '(Transc.log10 %s)' % expr(e.args[0], names, known)
+        if isinstance(f, ast.Name) and f.id == '_log10' and '_log10' in known and len(e.args) == 1:
+            return '(Transc.log10 %s)' % expr(e.args[0], names, known)
         if isinstance(f, ast.Name) and f.id in known and len(e.args) == 1:
             return '(%s %s)' % (f.id, expr(e.args[0], names, known))
     raise T.TranslateError('unsupported expression: ' + ast.dump(e)[:120])
@@ -67,9 +73,31 @@ def function(fn, known):
     return 'def %s %s: ρ :=\n%s\n' % (fn.name, ''.join('(%s : ρ) ' % a for a in args), '\n'.join(lines))
 
 
+LOG10_IDIOM = "Return(value=Call(func=Attribute(value=Name(id='np'), attr='log10'), args=[BinOp(left=Call(" \
+              "func=Attribute(value=Name(id='np'), attr='asarray'), args=[Name(id='value')]), op=Add(), " \
+              "right=Constant(value=0.0))]))"
+
+
+def check_log10_helper(tree):
+    """`_log10` (if present) must be the float-promotion idiom around np.log10"""
+    try:
+        fn = T.find_fn(tree, '_log10')
+    except T.TranslateError:
+        return False
+    body = T.strip_doc(fn.body)
+    args = [a.arg for a in fn.args.args]
+    dump = ast.dump(body[0], annotate_fields=True, include_attributes=False) if len(body) == 1 else ''
+    dump = dump.replace(', ctx=Load()', '').replace(', keywords=[]', '')
+    if args != ['value'] or dump != LOG10_IDIOM:
+        raise T.TranslateError('_log10 is not `return np.log10(np.asarray(value) + 0.0)`: ' + dump[:200])
+    return True
+
+
 def gen_c20_conversion(repo):
     tree = T.parse_file(os.path.join(repo, 'pyphysim/util/conversion.py'))
     known, out = set(), []
+    if check_log10_helper(tree):
+        known.add('_log10')
     for name in FUNCTIONS:
         out.append(function(T.find_fn(tree, name), known))
         known.add(name)
